@@ -51,6 +51,9 @@ func inject(rng *rand.Rand, p *fqlast.Program, next *int64) {
 		if rng.Intn(3) == 0 {
 			// an outer loop over closables: the loop variable binds each of them
 			outer := &fqlast.For{Val: fmt.Sprintf("c%d", *next+1), Src: fqlast.Arr(closer(), closer()), Ret: &fqlast.Ret{For: p.For}}
+			if rng.Intn(3) == 0 {
+				outer.Val = "_" // the ignore variable binds (and thereby registers) each element too
+			}
 			if rng.Intn(2) == 0 {
 				// ... and a LIMIT with an offset right behind the source: the rows it skips were bound too
 				outer.Src = fqlast.Arr(closer(), closer(), closer())
